@@ -1,8 +1,12 @@
-(** [sort_by] (Repro/StructSort.v) is a stable sort: its result is a permutation
-    of its argument, ordered by key, and elements with equal keys keep their
-    relative order. *)
+(** [sort_by] (Repro/StructSort.v) is a stable sort for EVERY key function into a
+    type whose [<=] is total and transitive: its result is a permutation of its
+    argument, ordered by key, and elements whose keys tie keep their relative
+    order.  Every key function of the family [sortkey] is such a function
+    ([keyfn_total], [keyfn_trans]), so sort_fields(key=...) is a stable sort for
+    each of them ([sort_fields_by_*]). *)
 From Coq Require Import Permutation Sorted.
-From Verif Require Import Lib.Base Repro.StructSort.
+From Coq Require Import Lia.
+From Verif Require Import Lib.Base Lib.PyStr Repro.Doc Repro.StructSort.
 
 Lemma str_leb_refl a : str_leb a a = true.
 Proof. induction a as [|x a IH]; cbn; [reflexivity|]. now rewrite N.ltb_irrefl. Qed.
@@ -40,67 +44,181 @@ Proof.
     apply N.ltb_ge in E1, E2. assert (x = y) by lia. subst. f_equal. now apply IH.
 Qed.
 
+(** * Any key function into a totally (pre)ordered type *)
+
 Section SortProofs.
-  Context {A : Type}.
-  Variable key : A -> str.
+  Context {A K : Type}.
+  Variable leb : K -> K -> bool.
+  Variable key : A -> K.
+  Hypothesis leb_total : forall a b, leb a b = false -> leb b a = true.
+  Hypothesis leb_trans : forall a b c, leb a b = true -> leb b c = true -> leb a c = true.
 
-  Definition key_le (x y : A) : Prop := str_leb (key x) (key y) = true.
+  Definition key_le (x y : A) : Prop := leb (key x) (key y) = true.
 
-  Lemma sort_insert_perm x l : Permutation (sort_insert key x l) (x :: l).
+  (** [k] and the key of [y] tie: neither is smaller *)
+  Definition ties (k : K) (y : A) : bool := leb (key y) k && leb k (key y).
+
+  Lemma leb_refl a : leb a a = true.
+  Proof. destruct (leb a a) eqn:E; [reflexivity|]. pose proof (leb_total a a E). congruence. Qed.
+
+  Lemma sort_insert_perm x l : Permutation (sort_insert leb key x l) (x :: l).
   Proof.
     induction l as [|y l IH]; cbn; [reflexivity|].
-    destruct (str_leb (key x) (key y)); [reflexivity|].
+    destruct (leb (key x) (key y)); [reflexivity|].
     rewrite IH. apply perm_swap.
   Qed.
 
-  Theorem sort_by_perm l : Permutation (sort_by key l) l.
+  Theorem sort_by_perm l : Permutation (sort_by leb key l) l.
   Proof.
     induction l as [|x l IH]; cbn; [reflexivity|].
     rewrite sort_insert_perm. now constructor.
   Qed.
 
   Lemma sort_insert_sorted x l :
-    StronglySorted key_le l -> StronglySorted key_le (sort_insert key x l).
+    StronglySorted key_le l -> StronglySorted key_le (sort_insert leb key x l).
   Proof.
     induction l as [|y l IH]; cbn; intros Hs.
     - constructor; constructor.
     - inversion Hs as [|? ? Hl Hy]; subst.
-      destruct (str_leb (key x) (key y)) eqn:E.
+      destruct (leb (key x) (key y)) eqn:E.
       + constructor; [exact Hs|]. constructor; [exact E|].
         rewrite Forall_forall in *. intros z Hz. unfold key_le in *.
-        apply (str_leb_trans _ (key y)); [exact E|now apply Hy].
+        apply (leb_trans _ (key y)); [exact E|now apply Hy].
       + constructor; [now apply IH|].
         rewrite Forall_forall in *. intros z Hz.
         apply (Permutation_in _ (sort_insert_perm x l)) in Hz. destruct Hz as [<-|Hz].
-        * now apply str_leb_total.
+        * now apply leb_total.
         * now apply Hy.
   Qed.
 
-  Theorem sort_by_sorted l : StronglySorted key_le (sort_by key l).
+  Theorem sort_by_sorted l : StronglySorted key_le (sort_by leb key l).
   Proof.
     induction l as [|x l IH]; cbn; [constructor|]. now apply sort_insert_sorted.
   Qed.
 
-  (** stability: for every key value, the elements carrying it come out in the
-      order in which they went in *)
+  (** stability: for every key value, the elements whose key ties with it come
+      out in the order in which they went in *)
   Lemma sort_insert_filter k x l :
-    filter (fun y => str_eqb (key y) k) (sort_insert key x l) =
-    filter (fun y => str_eqb (key y) k) (x :: l).
+    filter (ties k) (sort_insert leb key x l) = filter (ties k) (x :: l).
   Proof.
     induction l as [|y l IH]; [reflexivity|]. cbn [sort_insert].
-    destruct (str_leb (key x) (key y)) eqn:E; [reflexivity|].
+    destruct (leb (key x) (key y)) eqn:E; [reflexivity|].
     cbn [filter] in *. rewrite IH.
-    destruct (str_eqb (key x) k) eqn:Ex, (str_eqb (key y) k) eqn:Ey; try reflexivity.
-    apply str_eqb_eq in Ex, Ey. rewrite Ex, Ey, str_leb_refl in E. discriminate.
+    destruct (ties k x) eqn:Ex, (ties k y) eqn:Ey; try reflexivity.
+    unfold ties in Ex, Ey. apply andb_true_iff in Ex as [Ex1 _]. apply andb_true_iff in Ey as [_ Ey2].
+    rewrite (leb_trans _ _ _ Ex1 Ey2) in E. discriminate.
   Qed.
 
-  Theorem sort_by_stable k l :
-    filter (fun y => str_eqb (key y) k) (sort_by key l) = filter (fun y => str_eqb (key y) k) l.
+  Theorem sort_by_stable k l : filter (ties k) (sort_by leb key l) = filter (ties k) l.
   Proof.
     induction l as [|x l IH]; [reflexivity|]. cbn [sort_by fold_right].
-    rewrite sort_insert_filter. cbn [filter]. fold (sort_by key l). now rewrite IH.
+    rewrite sort_insert_filter. cbn [filter]. fold (sort_by leb key l). now rewrite IH.
   Qed.
 
-  Lemma sort_by_length l : length (sort_by key l) = length l.
+  Lemma sort_by_length l : length (sort_by leb key l) = length l.
   Proof. apply Permutation_length. apply sort_by_perm. Qed.
+
+  (** nothing moves when the list is already in order (in particular when all keys tie) *)
+  Lemma sort_insert_front x l :
+    Forall (key_le x) l -> sort_insert leb key x l = x :: l.
+  Proof. intros H. destruct l as [|y l]; [reflexivity|]. cbn. inversion H; subst. unfold key_le in *. now rewrite H2. Qed.
+
+  Theorem sort_by_sorted_id l : StronglySorted key_le l -> sort_by leb key l = l.
+  Proof.
+    induction 1 as [|x l Hs IH Hx]; [reflexivity|]. cbn [sort_by fold_right].
+    fold (sort_by leb key l). rewrite IH. now apply sort_insert_front.
+  Qed.
 End SortProofs.
+
+(** for string keys, tying is being equal *)
+Lemma str_ties_eqb {A} (key : A -> str) k y : ties str_leb key k y = str_eqb (key y) k.
+Proof.
+  unfold ties. destruct (str_eqb (key y) k) eqn:E.
+  - apply str_eqb_eq in E. rewrite E. now rewrite str_leb_refl.
+  - destruct (str_leb (key y) k) eqn:E1, (str_leb k (key y)) eqn:E2; try reflexivity.
+    rewrite (str_leb_antisym _ _ E1 E2), str_eqb_refl in E. discriminate.
+Qed.
+
+(** * The family of key functions *)
+
+Lemma N_leb_total a b : N.leb a b = false -> N.leb b a = true.
+Proof. intros H. apply N.leb_gt in H. apply N.leb_le. lia. Qed.
+
+Lemma N_leb_trans a b c : N.leb a b = true -> N.leb b c = true -> N.leb a c = true.
+Proof. intros H1 H2. apply N.leb_le in H1, H2. apply N.leb_le. lia. Qed.
+
+Lemma bool_leb_total a b : bool_leb a b = false -> bool_leb b a = true.
+Proof. now destruct a, b. Qed.
+
+Lemma bool_leb_trans a b c : bool_leb a b = true -> bool_leb b c = true -> bool_leb a c = true.
+Proof. now destruct a, b, c. Qed.
+
+Lemma keyfn_total k a b : k_leb (keyfn_of k) a b = false -> k_leb (keyfn_of k) b a = true.
+Proof.
+  destruct k; cbn [keyfn_of k_leb k_ty] in *;
+    first [apply str_leb_total|apply N_leb_total|apply bool_leb_total].
+Qed.
+
+Lemma keyfn_trans k a b c :
+  k_leb (keyfn_of k) a b = true -> k_leb (keyfn_of k) b c = true -> k_leb (keyfn_of k) a c = true.
+Proof.
+  destruct k; cbn [keyfn_of k_leb k_ty] in *;
+    first [apply str_leb_trans|apply N_leb_trans|apply bool_leb_trans].
+Qed.
+
+(** sort_fields(key=k), for every [k] of the family: a permutation of the fields, *)
+Theorem sort_fields_by_perm k fs : Permutation (sort_fields_by k fs) fs.
+Proof. apply sort_by_perm. Qed.
+
+(** in key order, *)
+Theorem sort_fields_by_sorted k fs :
+  StronglySorted (fun x y => k_leb (keyfn_of k) (field_key k x) (field_key k y) = true) (sort_fields_by k fs).
+Proof. apply (sort_by_sorted _ _ (keyfn_total k) (keyfn_trans k)). Qed.
+
+(** and the fields that tie with a given field [g] (the same key: e.g. names of the
+    same length under [KLen], all fields under [KConst]) are, among themselves, in
+    the order they had: in particular the occurrences of a repeated field stay
+    interleaved with the fields of other names that tie with them *)
+Theorem sort_fields_by_stable k g fs :
+  filter (key_tie k g) (sort_fields_by k fs) = filter (key_tie k g) fs.
+Proof.
+  assert (E : forall l, filter (key_tie k g) l = filter (ties (k_leb (keyfn_of k)) (field_key k) (field_key k g)) l).
+  { intros l. apply filter_ext. intros f. unfold key_tie, ties. apply andb_comm. }
+  rewrite !E. apply (sort_by_stable _ _ (keyfn_trans k)).
+Qed.
+
+(** the default key: fields tie exactly when their lower-cased names are equal *)
+Theorem sort_default_stable n fs :
+  filter (fun f => str_eqb (lower (f_name f)) n) (sort_fields_by KDefault fs)
+  = filter (fun f => str_eqb (lower (f_name f)) n) fs.
+Proof.
+  assert (E : forall l, filter (fun f => str_eqb (lower (f_name f)) n) l
+                        = filter (ties str_leb (field_key KDefault) n) l).
+  { intros l. apply filter_ext. intros f. symmetry. apply (str_ties_eqb (field_key KDefault)). }
+  rewrite !E. apply (sort_by_stable _ _ str_leb_trans).
+Qed.
+
+(** what "tie" means for each key function of the family *)
+Lemma str_leb_both a b : str_leb a b && str_leb b a = str_eqb a b.
+Proof. exact (str_ties_eqb (fun x : str => x) b a). Qed.
+
+Lemma N_leb_both a b : (N.leb a b && N.leb b a = N.eqb a b)%N.
+Proof.
+  destruct (N.eqb a b) eqn:E.
+  - apply N.eqb_eq in E. subst. now rewrite N.leb_refl.
+  - apply N.eqb_neq in E. destruct (N.leb a b) eqn:E1, (N.leb b a) eqn:E2; try reflexivity.
+    apply N.leb_le in E1, E2. lia.
+Qed.
+
+Theorem key_tie_meaning f g :
+  key_tie KDefault f g = str_eqb (lower (f_name f)) (lower (f_name g))
+  /\ key_tie KLen f g = (N.of_nat (length (f_name f)) =? N.of_nat (length (f_name g)))%N
+  /\ key_tie KConst f g = true
+  /\ key_tie KXLast f g = Bool.eqb (startswith X_DASH (lower (f_name f))) (startswith X_DASH (lower (f_name g)))
+  /\ key_tie KFirstChar f g = str_eqb (lower (firstn 1 (f_name f))) (lower (firstn 1 (f_name g)))
+  /\ key_tie KExact f g = str_eqb (f_name f) (f_name g).
+Proof.
+  unfold key_tie, field_key. cbn [keyfn_of k_leb k_of k_ty].
+  repeat split; try apply str_leb_both; try apply N_leb_both.
+  now destruct (startswith X_DASH (lower (f_name f))), (startswith X_DASH (lower (f_name g))).
+Qed.
